@@ -57,6 +57,8 @@ type Ctx struct {
 	oblN    int
 	specs   map[string]*specInfo
 	refuted map[string]bool // callee clauses known to be false on the real code (known findings): never assumed
+	addrVals map[string]Addr // contract-level stand-ins for addresses of locals / elements
+	property string // the property being checked (some property-derived obligations are raised only under their property)
 	skipProp func(props []string) bool // ensures clauses of other properties are not checked in this run
 }
 
@@ -427,7 +429,49 @@ func (c *Ctx) heapGetSort(st *State, key, srt string) string {
 func (c *Ctx) elemHeap(st *State, elem types.Type) (string, string) {
 	es := c.sortOf(elem)
 	key := "E:" + sanitize(types.TypeString(elem, func(p *types.Package) string { return p.Name() }))
-	return key, c.heapGetSort(st, key, fmt.Sprintf("(Array Int (Array Int %s))", es))
+	_, known := c.heap0[key]
+	h := c.heapGetSort(st, key, fmt.Sprintf("(Array Int (Array Int %s))", es))
+	if !known && st.param == nil {
+		if h0, ok := c.heap0[key]; ok {
+			// the entry heap holds no reference newer than the entry allocation counter: also inside slice elements
+			a0 := c.heap0[allocKey]
+			if a0 == "" {
+				a0 = c.fresh("alloc0", "Int")
+				c.heap0[allocKey] = a0
+				c.heapSrt[allocKey] = "Int"
+				c.defs = append(c.defs, fmt.Sprintf("(assert (>= %s 0))", a0))
+			}
+			for _, rp := range c.refPaths("(select (select "+h0+" a_r) i_r)", elem, 0) {
+				c.defs = append(c.defs, fmt.Sprintf("(assert (forall ((a_r Int) (i_r Int)) (! %s :pattern ((select (select %s a_r) i_r)))))", strings.ReplaceAll(rp, "$B", a0), h0))
+			}
+		}
+	}
+	return key, h
+}
+
+// refPaths lists, for a value term of type t, the facts "this reference / slice inside the value was allocated no later
+// than $B" (placeholder), descending into struct fields of repository types.
+func (c *Ctx) refPaths(term string, t types.Type, depth int) []string {
+	if depth > 3 || isDecimal(t) {
+		return nil
+	}
+	switch u := t.Underlying().(type) {
+	case *types.Pointer, *types.Map:
+		return []string{fmt.Sprintf("(<= %s $B)", term)}
+	case *types.Slice:
+		return []string{fmt.Sprintf("(and (<= (sl.arr %s) $B) (>= (sl.len %s) 0) (>= (sl.off %s) 0))", term, term, term)}
+	case *types.Struct:
+		name := c.sortOf(t)
+		if name == "U" {
+			return nil
+		}
+		var out []string
+		for i := 0; i < u.NumFields(); i++ {
+			out = append(out, c.refPaths(fmt.Sprintf("(%s.%s %s)", name, u.Field(i).Name(), term), u.Field(i).Type(), depth+1)...)
+		}
+		return out
+	}
+	return nil
 }
 
 // eltFrame states the frame of an element heap in terms of the accessor, so that facts stated with elt carry over.
@@ -598,6 +642,7 @@ type Frame struct {
 	closCells map[*ssa.Alloc]*ssa.MakeClosure  // locals holding a closure (f := func(){...})
 	ptrCells  map[*ssa.Alloc]Addr // locals that hold the address of a slice element / field (the p := &xs[i] idiom)
 	inCommute    bool
+	pendingAddrArgs map[int]Addr // arguments of the call being dispatched that are addresses (for inlining)
 	sortedUseBad bool
 	forcedKey    string // commutes check: the key the next map-range Next must yield
 	commute      bool
@@ -676,6 +721,18 @@ func (fr *Frame) setElemHeap(st *State, key string, elem types.Type, old, newTer
 	fr.assume(st, fmt.Sprintf("(forall ((%s Slice) (%s Int)) (! (=> (not (= (sl.arr %s) %s)) (= (%s %s %s %s) (%s %s %s %s))) :pattern ((%s %s %s %s))))",
 		sq, kq, sq, changedRef, ef, name, sq, kq, ef, old, sq, kq, ef, name, sq, kq))
 	st.heap[key] = name
+}
+
+// addrVal makes a contract-level stand-in for a pointer to a local / field / slice element: selecting a field of it reads
+// the location; it is never nil. (Element and field pointers are not first-class values of the heap model.)
+func (fr *Frame) addrVal(a Addr, t types.Type) Val {
+	if fr.ctx.addrVals == nil {
+		fr.ctx.addrVals = map[string]Addr{}
+	}
+	fr.ctx.n++
+	name := fmt.Sprintf("@addr%d", fr.ctx.n)
+	fr.ctx.addrVals[name] = a
+	return Val{name, t}
 }
 
 // obligeAt names a safety/frame obligation by the source text of the expression it guards (stable under edits elsewhere).
@@ -2495,6 +2552,33 @@ func (fr *Frame) call(st *State, x *ssa.Call) bool {
 	case "(github.com/shopspring/decimal.Decimal).IsNegative":
 		setRes(Val{fmt.Sprintf("(< %s 0.0)", fr.val(x.Call.Args[0]).T), x.Type()})
 		return true
+	case "(github.com/shopspring/decimal.Decimal).StringFixed", "(github.com/shopspring/decimal.Decimal).Round", "(github.com/shopspring/decimal.Decimal).StringFixedBank", "(github.com/shopspring/decimal.Decimal).Truncate":
+		// rendering / rounding to n places is lossless only if the value carries no more than n decimals (dscale).
+		// Property C04 ("exact quantities survive display formats") raises that as an obligation at every such call.
+		xv, nv := fr.val(x.Call.Args[0]).T, fr.val(x.Call.Args[1]).T
+		if c.property == "C04" {
+			fr.obligeAt(st, "lossless.decimal", "call", fmt.Sprintf("(<= (dscale %s) %s)", xv, nv), x.Pos())
+		}
+		if strings.HasSuffix(full, ".Round") || strings.HasSuffix(full, ".Truncate") {
+			r := c.fresh("rounded", "Real")
+			fr.assume(st, fmt.Sprintf("(=> (<= (dscale %s) %s) (= %s %s))", xv, nv, r, xv))
+			setRes(Val{r, x.Type()})
+		} else {
+			setRes(Val{c.fresh("fixedstr", "Str"), x.Type()})
+		}
+		return true
+	case "(github.com/shopspring/decimal.Decimal).Exponent":
+		// the exponent is minus the number of decimals stored, which is at least the number of decimals the value needs
+		e := c.fresh("exponent", "Int")
+		fr.assume(st, fmt.Sprintf("(and (>= (- %s) (dscale %s)) (>= %s (- 2147483648)) (< %s 2147483648))", e, fr.val(x.Call.Args[0]).T, e, e))
+		setRes(Val{e, x.Type()})
+		return true
+	case "strings.Repeat":
+		fr.obligeAt(st, "safety.repeat", "call", fmt.Sprintf("(>= %s 0)", fr.val(x.Call.Args[1]).T), x.Pos())
+		r := c.fresh("repeated", "Str")
+		fr.assume(st, fmt.Sprintf("(= (slen %s) (* (slen %s) %s))", r, fr.val(x.Call.Args[0]).T, fr.val(x.Call.Args[1]).T))
+		setRes(Val{r, x.Type()})
+		return true
 	case "(github.com/shopspring/decimal.Decimal).IsZero":
 		setRes(Val{fmt.Sprintf("(= %s 0.0)", fr.val(x.Call.Args[0]).T), x.Type()})
 		return true
@@ -2550,6 +2634,9 @@ func (fr *Frame) call(st *State, x *ssa.Call) bool {
 		return true
 	case "strings.HasPrefix":
 		setRes(Val{fmt.Sprintf("(hasprefix %s %s)", fr.val(x.Call.Args[0]).T, fr.val(x.Call.Args[1]).T), x.Type()})
+		return true
+	case "unicode/utf8.RuneCountInString":
+		setRes(Val{fmt.Sprintf("(rcount %s)", fr.val(x.Call.Args[0]).T), x.Type()})
 		return true
 	case "unicode/utf8.RuneLen":
 		setRes(Val{fmt.Sprintf("(runelen %s)", fr.val(x.Call.Args[0]).T), x.Type()})
@@ -2631,7 +2718,14 @@ func (fr *Frame) call(st *State, x *ssa.Call) bool {
 	}
 	key := funcKey(callee)
 	var args []Val
-	for _, a := range x.Call.Args {
+	fr.pendingAddrArgs = map[int]Addr{}
+	for i, a := range x.Call.Args {
+		if ad, isAddr := fr.addrs[a]; isAddr {
+			// the argument is the address of a local, field or slice element (&xs[i]): an inlined callee works on that location
+			fr.pendingAddrArgs[i] = ad
+			args = append(args, fr.addrVal(ad, a.Type()))
+			continue
+		}
 		args = append(args, fr.val(a))
 	}
 	if callee.Pkg != c.pkg && c.cs.Funcs[key] == nil && !isLeaf(callee) {
@@ -2915,8 +3009,13 @@ func (fr *Frame) inline(st *State, callee *ssa.Function, args []Val, blk *ssa.Ba
 	nf := fr.child(callee)
 	nf.curLoops = append(append([]*loopMod{}, fr.curLoops...), fr.loopOf[blk]...)
 	for i, p := range callee.Params {
+		if ad, ok := fr.pendingAddrArgs[i]; ok {
+			nf.addrs[p] = ad
+			continue
+		}
 		nf.vals[p] = args[i]
 	}
+	fr.pendingAddrArgs = nil
 	// run on the caller's state (shared heap, private cells)
 	sub := st.clone()
 	nf.run(sub)
